@@ -22,7 +22,7 @@ from .z3env import REPO_SRC, ensure_repo_first
 VERIF = os.path.dirname(os.path.dirname(os.path.abspath(__file__)))
 EVID = os.environ.get("UJVC_EVID") or os.path.join(VERIF, "evidence")
 CONTRACT_MODULES = [
-    "retry", "times", "filestore", "stores", "engine", "prepare", "coordinator", "queues", "runphys", "runpath", "rewrite", "stale", "queues", "kahn", "graphs", "rewrite", "stale",
+    "retry", "times", "filestore", "stores", "engine", "prepare", "coordinator", "queues", "runphys", "runpath", "rewrite", "stale", "pruning", "queues", "kahn", "graphs", "rewrite", "stale",
     "plumbing", "runpath", "observers", "trace", "frames", "progress", "lemmas", "history",
 ]
 
